@@ -41,7 +41,7 @@ SplitsFor(S, slice) ==      \* each flow may be split by one of its dimensions t
     {<<>>} \cup UNION {{[g \in {f} |-> l] : l \in Range(S.fdims[f]) \ DOMAIN slice} : f \in S.flows}
 SankeyConfigs ==
     UNION {UNION {{[op |-> "sankey", sys |-> S, slice |-> sl, exclp |-> ep, exclf |-> ef, split |-> sp] :
-                     ep \in {{1}, {}, {1, 3}}, ef \in {{}} \cup {{f} : f \in S.flows}, sp \in SplitsFor(S, sl)} : sl \in Slices}
+                     ep \in {{1}, {}, {1, 3}, {2}}, ef \in {{}} \cup {{f} : f \in S.flows}, sp \in SplitsFor(S, sl)} : sl \in Slices}
            : S \in {T \in Systems : T.stocks = {}}}
 
 \* ---- line plots
